@@ -80,10 +80,12 @@ func TestSessCloseRace(t *testing.T) {
 				}()
 			}
 			paced := r%3 == 2
+			rateLimit := 0
 			if paced {
 				// variant: the output of the target is paced so that its post-processing goroutine lags behind with packets queued;
 				// then its transport starts failing writes, and shortly afterwards the session is closed
-				sess[target].SetRateLimit(uint32(8000 + rr.Intn(60000)))
+				rateLimit = 8000 + rr.Intn(60000)
+				sess[target].SetRateLimit(uint32(rateLimit))
 			}
 			pump(cli)
 			pump(srv)
@@ -135,6 +137,10 @@ func TestSessCloseRace(t *testing.T) {
 			lconn.Close()
 			cconn.Close()
 			time.Sleep(12 * time.Second)
+			if rateLimit > 0 {
+				// a paced session still sends what was queued when it was closed: up to 2048 packets at the configured rate
+				time.Sleep(time.Duration(2048*1500/rateLimit+1) * time.Second)
+			}
 			synctest.Wait()
 			leaks := []string{}
 			backlogLeaks := 0
